@@ -179,6 +179,9 @@ def concCase (subject k : String) (args : List Sexp) : Option String := do
   | "wlaunch" | "wsignal" | "wbackground" | "pbackground" | "xbackground" =>
     let (s, ps) := bgSim.phases fuel (bgInit true false g script) choices []
     pure (concObs ps (s.rets.map (fun r => resStr r.res)) 1)
+  | "plaunch" =>
+    let (s, ps) := plSim.phases fuel (plInit g script) choices []
+    pure (concObs ps (s.rets.map (fun r => resStr r.res)) s.finished)
   | "opstartgroup" | "opadd" =>
     let n := if subject == "opadd" then 1 else n
     let (s, ps) := sgSim.phases fuel (sgInit n g script) choices []
@@ -222,6 +225,7 @@ def allowedCase (subject k : String) (args : List Sexp) (o : Obs) : Option Bool 
   | "oplimit" | "oplimitf" => pure (allowedOpLimit n g o)
   | "lock" => pure (allowedLock g o)
   | "oplaunch" | "opsignal" | "wlaunch" | "wsignal" | "wbackground" | "pbackground" | "xbackground" => pure (allowedBg g o)
+  | "plaunch" => pure (o.phases.all (fun p => decide (p.2 ≤ 1)) && o.results.length == g)
   | "opstartgroup" | "wstartgroup" => pure (allowedSg n g o)
   | "opadd" => pure (allowedSg 1 g o)
   | _ => none
